@@ -155,6 +155,14 @@ func (g *c18Gen) stmts(depth int, vis []string) []*mj.Node {
 			out = append(out, mj.Set(vis[g.n(0, len(vis)-1, "setname2")], g.val()))
 		case 5:
 			g.labels["api-setorlet"] = true
+			if g.n(0, 2, "invalidFirst") == 0 && depth < 4 {
+				// the variable exists but holds no value: SetOrLet from a deeper scope must still rebind it
+				g.labels["api-setorlet-on-invalid-valued-variable"] = true
+				out = append(out, mj.Let(name, mj.Nil()), mj.If(mj.Bool(true), []*mj.Node{mj.Let(g.id("open"), mj.Num(0)), api("apiSetOrLet", mj.Str(name), g.val())}, nil),
+					mj.Text("("+name+" after="), mj.Print(mj.Var(name)), mj.Text(")"))
+				vis = with(vis, name)
+				continue
+			}
 			out = append(out, api("apiSetOrLet", mj.Str(name), g.val()))
 			vis = with(vis, name)
 		case 6:
@@ -333,15 +341,17 @@ func genC18Args(t *rapid.T) c18Case {
 	// argument shapes: plain, piped, slot at each index, too many
 	args := []string{}
 	n := rapid.IntRange(0, 3).Draw(t, "nargs")
-	pool := []string{`"s1"`, "2", "ev", `"x y"`, "7", "3.5", "true"}
+	pool := []string{`"s1"`, "2", "ev", `"x y"`, "7", "3.5", "true", "nil", "absent.key"}
 	for i := 0; i < n; i++ {
 		args = append(args, pool[rapid.IntRange(0, len(pool)-1).Draw(t, "arg")])
 	}
 	piped := pool[rapid.IntRange(0, len(pool)-1).Draw(t, "piped")]
-	var call func(fn string) string
+	var call, plainCall func(fn string) string
+	plainCall = func(fn string) string { return fn + "(" + strings.Join(append([]string{piped}, args...), ", ") + ")" }
 	switch rapid.IntRange(0, 3).Draw(t, "shape") {
 	case 0:
 		call = func(fn string) string { return fn + "(" + strings.Join(args, ", ") + ")" }
+		plainCall = call
 	case 1:
 		call = func(fn string) string {
 			s := piped + " | " + fn
@@ -356,12 +366,28 @@ func genC18Args(t *rapid.T) c18Case {
 		pos := rapid.IntRange(0, n).Draw(t, "slotpos")
 		withSlot := append(append(append([]string{}, args[:pos]...), "_"), args[pos:]...)
 		call = func(fn string) string { return piped + " | " + fn + "(" + strings.Join(withSlot, ", ") + ")" }
+		inPlace := append(append(append([]string{}, args[:pos]...), piped), args[pos:]...)
+		plainCall = func(fn string) string { return fn + "(" + strings.Join(inPlace, ", ") + ")" }
 	}
 	which := rapid.SampledFrom([]string{"get", "parse", "isset"}).Draw(t, "which")
 	c := c18Case{Kind: "arguments"}
+	hasNil := false
+	for _, a := range append([]string{piped}, args...) {
+		if a == "nil" || a == "absent.key" {
+			hasNil = true
+		}
+	}
+	if hasNil && which == "parse" {
+		which = "get" // ParseInto rejects invalid values by contract
+	}
 	switch which {
 	case "get":
-		c.Tpl, c.Twin = "[{{ "+call("argsGet")+" }}]", "[{{ "+call("reflGet")+" }}]"
+		if hasNil {
+			// nil is not a valid reflected argument: the reference is the plain call f(a, b, c) with every value spelled at its position
+			c.Tpl, c.Twin = "[{{ "+call("argsGet")+" }}]", "[{{ "+plainCall("reflGet")+" }}]"
+		} else {
+			c.Tpl, c.Twin = "[{{ "+call("argsGet")+" }}]", "[{{ "+call("reflGetR")+" }}]"
+		}
 	case "parse":
 		c.Tpl, c.Twin = "[{{ "+call("argsParse")+" }}]", "[{{ "+call("reflParse")+" }}]"
 	default:
@@ -394,11 +420,29 @@ func c18ArgVars() jet.VarMap {
 	vars.SetFunc("argsGet", func(a jet.Arguments) reflect.Value {
 		var vs []interface{}
 		for i := 0; i < a.NumOfArguments(); i++ {
-			vs = append(vs, a.Get(i).Interface())
+			if v := a.Get(i); v.IsValid() {
+				vs = append(vs, v.Interface())
+			} else {
+				vs = append(vs, nil)
+			}
 		}
 		return reflect.ValueOf(show(vs))
 	})
-	vars.Set("reflGet", func(vs ...interface{}) string { return show(vs) })
+	// the reference for nil arguments cannot be a reflected function (nil is not a valid reflected argument):
+	// a second jet.Func that is only ever called in plain form f(a, b, c)
+	vars.SetFunc("reflGet", func(a jet.Arguments) reflect.Value {
+		var vs []interface{}
+		for i := 0; i < a.NumOfArguments(); i++ {
+			if v := a.Get(i); v.IsValid() {
+				vs = append(vs, v.Interface())
+			} else {
+				vs = append(vs, nil)
+			}
+		}
+		return reflect.ValueOf(show(vs))
+	})
+	vars.Set("reflGetR", func(vs ...interface{}) string { return show(vs) })
+	vars.Set("absent", map[string]interface{}{"present": 1})
 	vars.SetFunc("argsParse", func(a jet.Arguments) reflect.Value {
 		ptrs := make([]interface{}, a.NumOfArguments())
 		vals := make([]interface{}, a.NumOfArguments())
@@ -411,6 +455,7 @@ func c18ArgVars() jet.VarMap {
 		return reflect.ValueOf(show(vals))
 	})
 	vars.Set("reflParse", func(vs ...interface{}) string { return show(vs) })
+	_ = plainCallDoc
 	vars.SetFunc("argsIsSet", func(a jet.Arguments) reflect.Value {
 		var parts []string
 		for i := 0; i < a.NumOfArguments(); i++ {
@@ -457,3 +502,6 @@ func TestC18(t *testing.T) {
 }
 
 func TestC18Replay(t *testing.T) { core.Replay(t, "C18", judgeC18) }
+
+// plainCallDoc: for Get the reference is the plain call with every value spelled at its position.
+const plainCallDoc = ""
